@@ -304,6 +304,7 @@ var vtagChoices = map[string][]string{
 	"slice":    {"", "", "nonzero", "required", "min=1"},
 	"map":      {"", "", "nonzero", "required"},
 	"ptr":      {"", "", "required", "nonzero", "min=1", "positive", "max=10", "min=-3, max=5"},
+	"iface":    {"", "", "", "nonzero", "required", "min=1", "positive", "max=10"},
 	"other":    {"", ""},
 }
 
@@ -330,6 +331,8 @@ func vtagClass(t *tyNode) string {
 		return "map"
 	case "ptr":
 		return "ptr"
+	case "iface":
+		return "iface"
 	}
 	return "other"
 }
